@@ -185,6 +185,7 @@ fn main() {
 
     let mut sport: u16 = 33000;
     let mut evals = 0u64;
+    let mut exempt_upload_total = 0u64;
     let mut host_refused_total = 0u64;
     let mut nontrivial: BTreeSet<String> = BTreeSet::new();
     let mut status_json_checked = 0u64;
@@ -312,6 +313,53 @@ fn main() {
             }
             HOST_STATUS.store(200, std::sync::atomic::Ordering::SeqCst);
             host_refused_total += refused_n;
+        }
+        // the two uploads that are forwarded without a signature are judged by the rules like any other request
+        {
+            w.rt.block_on(async { st_shared.clear_all_summary().await.unwrap() });
+            let mut refsum = Summary::new();
+            'up: for ci in 0..callers.len() {
+                for (m, t) in [("PUT", "/vmAgentLog"), ("POST", "/machine/?comp=telemetrydata"), ("PUT", "/deny/vmAgentLog")] {
+                    let c = &callers[ci];
+                    let hi = if c.dest == WS { 0 } else if c.dest == HOSTGA { 1 } else { 2 };
+                    let host = w.hosts.all()[hi];
+                    host.set_responder(Arc::new(|_m: &Msg, _c, _i| Action::Reply(vec![simple_response(200, &[], b"ok")])));
+                    let cur = host.cursor();
+                    sport = if sport >= 35000 { 33000 } else { sport + 1 };
+                    let raw = build_request(m, t, &[("Host", b"h")], Some(b"log line"), None);
+                    let rec = AuditRec::to(c.dest, c.uid, c.pid, c.is_root);
+                    let status = w.connect(Some(sport), Some(&rec)).map_err(|e| e.to_string()).and_then(|mut cl| {
+                        let r = cl.send(&raw).map_err(|e| e.to_string()).and_then(|_| cl.read_response(false, Duration::from_secs(10)).map(|m| m.status()));
+                        cl.close();
+                        r
+                    });
+                    evals += 1;
+                    exempt_upload_total += 1;
+                    let upstream = host.requests_since(cur).len();
+                    let denied = !pol.disabled() && !pol.allows(c.user, t);
+                    if denied {
+                        let (ip, port) = c.dest.split_once(':').unwrap();
+                        *refsum.entry((c.user.to_string(), c.exe.to_string(), format!("{} {}", c.exe, c.arg), ip.to_string(), port.parse().unwrap())).or_insert(0) += 1;
+                    }
+                    let case = json!({"mode": mode, "default_allow": default_allow, "family": "signature-exempt-uploads", "caller": c.label, "method": m, "url": t});
+                    if denied && pol.enforce() {
+                        if status != Ok(403) || upstream != 0 {
+                            res.violation("enforce:denied-upload-not-refused", &format!("{m} {t} by {} is denied by the rules (enforce): client got {:?}, {upstream} request(s) upstream", c.label, status), case.clone());
+                        }
+                    } else if status != Ok(200) || upstream != 1 {
+                        res.violation("upload-not-relayed", &format!("{m} {t} by {} (denied by the rules: {denied}): client got {:?}, {upstream} request(s) upstream", c.label, status), case.clone());
+                    }
+                    let got = read_summary(&w);
+                    if got != refsum {
+                        res.violation(
+                            if got.values().sum::<u64>() > refsum.values().sum::<u64>() { "summary:more-occurrences-than-denials:exempt-upload" } else { "summary:denial-not-recorded:exempt-upload" },
+                            &format!("after {m} {t} by {} the failed-authorization summary is {:?}, expected {:?}", c.label, got, refsum),
+                            case,
+                        );
+                        break 'up;
+                    }
+                }
+            }
         }
         // a denied request that announces a body and never finishes sending it (content-length larger than what comes, an
         // open chunk): refused and recorded at once, not when the client gives up
@@ -513,7 +561,8 @@ fn main() {
     res.cov("status_json_comparisons", status_json_checked);
     res.cov("exhaustive", true);
     res.cov("host_refused_requests", host_refused_total);
-    res.cov("rule", format!("every history of <= {max_len} requests over {{alice, bob -> IMDS; two elevated root processes -> WireServer, one of them also -> HostGAPlugin}} x 3 URLs (granted, matched-but-ungranted, unmatched) x {{host answers, host resets the connection}} (length-3 histories without the second root process), plus every caller x URL twice while the host answers relayed requests with 401 / 403 / 500, plus denied requests whose announced body never completes (403 and the record at once), plus 5 identical denials, 6 denials on 3 concurrent keep-alive connections, a denied request on a connection that was opened (and served) while the rules were disabled, a denied request after the host closed the relay connection, 520 (1100) denied requests from as many different processes, and a sampled burst of 250 (600) concurrent denied requests, under {} mode/default configurations; after every request the public failed-authorization summary is compared with the reference multiset (user, process path, command line, destination -> count); status.json of the real status task is compared for every 3rd (quick: 7th) history (status interval 2 ms) and every 5-denial block; non-trivial = request the rules deny", configs.len()));
+    res.cov("signature_exempt_upload_requests", exempt_upload_total);
+    res.cov("rule", format!("every history of <= {max_len} requests over {{alice, bob -> IMDS; two elevated root processes -> WireServer, one of them also -> HostGAPlugin}} x 3 URLs (granted, matched-but-ungranted, unmatched) x {{host answers, host resets the connection}} (length-3 histories without the second root process), plus every caller x URL twice while the host answers relayed requests with 401 / 403 / 500, plus the two signature-exempt uploads (and the same method under the matched-but-ungranted prefix) by every caller, plus denied requests whose announced body never completes (403 and the record at once), plus 5 identical denials, 6 denials on 3 concurrent keep-alive connections, a denied request on a connection that was opened (and served) while the rules were disabled, a denied request after the host closed the relay connection, 520 (1100) denied requests from as many different processes, and a sampled burst of 250 (600) concurrent denied requests, under {} mode/default configurations; after every request the public failed-authorization summary is compared with the reference multiset (user, process path, command line, destination -> count); status.json of the real status task is compared for every 3rd (quick: 7th) history (status interval 2 ms) and every 5-denial block; non-trivial = request the rules deny", configs.len()));
     res.assume("audit-mode denials are compared with the same request under an allowing rule set (status and what the host received, modulo date/MAC headers)");
     std::process::exit(res.finish());
 }
